@@ -453,6 +453,16 @@ Qed.
 Definition rx_vs : list var := [mkvar 3 2 1; mkvar 4 1 1; mkvar (5 # 2) 1 1].
 Definition rx_cs : list con := [mkcon 1 0 0 false; mkcon 1 2 (-1) false; mkcon 1 2 (-2) false].
 
+Definition rx_passes : bool :=
+  match static_satisfy (static_init rx_vs rx_cs) with Ok s => passes_okb MAXTRIES s | _ => false end.
+Definition rx_splits : bool :=
+  match static_satisfy (static_init rx_vs rx_cs) with
+  | Ok s => match refine_pass s with Ok (_, true) => true | _ => false end
+  | _ => false
+  end.
+Lemma rx_passes_true : rx_passes = true. Proof. vm_compute. reflexivity. Qed.
+Lemma rx_splits_true : rx_splits = true. Proof. vm_compute. reflexivity. Qed.
+
 Example static_solve_returns_given_passes_example :
   wf_vars rx_vs /\ wf_cons rx_vs rx_cs /\ dag_orderb (init rx_vs rx_cs) = true /\
   (forall s1, static_satisfy (static_init rx_vs rx_cs) = Ok s1 -> passes_ok MAXTRIES s1) /\
@@ -463,13 +473,9 @@ Proof.
     destruct i as [|[|[|i]]]; try lia; cbn; split; reflexivity.
   - intros c [<-|[<-|[<-|[]]]]; cbn; lia.
   - vm_compute. reflexivity.
-  - intros s1 H. apply passes_okb_spec.
-    assert (E : exists s, static_satisfy (static_init rx_vs rx_cs) = Ok s /\ passes_okb MAXTRIES s = true).
-    { eexists. split; vm_compute; reflexivity. }
-    destruct E as [s [E1 E2]]. rewrite E1 in H. inversion H. subst s1. exact E2.
-  - assert (E : exists s, static_satisfy (static_init rx_vs rx_cs) = Ok s /\
-                          match refine_pass s with Ok (_, true) => true | _ => false end = true).
-    { eexists. split; vm_compute; reflexivity. }
-    destruct E as [s [E1 E2]]. exists s. destruct (refine_pass s) as [[s2 [|]]| |]; try discriminate.
-    exists s2. split; [exact E1 | reflexivity].
+  - intros s1 H. apply passes_okb_spec. pose proof rx_passes_true as P. unfold rx_passes in P. rewrite H in P. exact P.
+  - pose proof rx_splits_true as P. unfold rx_splits in P.
+    destruct (static_satisfy (static_init rx_vs rx_cs)) as [s| |]; try discriminate.
+    exists s. destruct (refine_pass s) as [[s2 [|]]| |]; try discriminate.
+    exists s2. split; reflexivity.
 Qed.
